@@ -1181,6 +1181,9 @@ StmtConstructs ==
     CD("a_yieldstar", "async", "a_yieldstar", "", <<"v">>, ""),
     CD("a_genpromise", "async", "a_genpromise", "", <<"v">>, "")>>
 
+\* an operand that is an optional chain is parenthesised where extending the chain would be a
+\* syntax error (assignment target, tagged template)
+ParIfChain(e) == IF e.k \in ChainKinds THEN Par(e) ELSE e
 RECURSIVE BuildElems(_, _, _)
 BuildElems(ks, s, i) ==   \* consumes slots of s from index i
   IF ks = <<>> THEN <<>> ELSE
@@ -1206,17 +1209,17 @@ Build(cd, s) ==
     [] cd.fam = "nul3"         -> Nul(Nul(s[1], s[2]), s[3])
     [] cd.fam = "pow"          -> Pow(s[1], s[2])
     [] cd.fam = "pow3"         -> Pow(s[1], Pow(s[2], s[3]))
-    [] cd.fam = "asg_mem"      -> Asg(cd.op, Mem(s[1], cd.key), s[2])
-    [] cd.fam = "asg_deep"     -> Asg(cd.op, Mem(Mem(s[1], "o"), cd.key), s[2])
-    [] cd.fam = "asg_idx"      -> Asg(cd.op, Idx(s[1], s[2]), s[3])
+    [] cd.fam = "asg_mem"      -> Asg(cd.op, Mem(ParIfChain(s[1]), cd.key), s[2])
+    [] cd.fam = "asg_deep"     -> Asg(cd.op, Mem(Mem(ParIfChain(s[1]), "o"), cd.key), s[2])
+    [] cd.fam = "asg_idx"      -> Asg(cd.op, Idx(ParIfChain(s[1]), s[2]), s[3])
     [] cd.fam = "asg_var"      -> Asg(cd.op, Var("v"), s[1])
     [] cd.fam = "asg_priv"     -> Asg(cd.op, PMem(This), s[1])
     [] cd.fam = "asg_pacc"     -> Asg(cd.op, PAcc(This), s[1])
     [] cd.fam = "spread1"      -> ObjL(<<Spread(s[1])>>)
     [] cd.fam = "spread2"      -> ObjL(<<KV("x", s[1]), Spread(s[2]), KV("a", s[3])>>)
     [] cd.fam = "spread3"      -> ObjL(<<Spread(s[1]), Spread(s[2])>>)
-    [] cd.fam = "tag_mem"      -> Tag(Mem(s[1], "f"), <<s[2]>>)
-    [] cd.fam = "tag_fn"       -> Tag(s[1], <<s[2]>>)
+    [] cd.fam = "tag_mem"      -> Tag(Mem(ParIfChain(s[1]), "f"), <<s[2]>>)
+    [] cd.fam = "tag_fn"       -> Tag(ParIfChain(s[1]), <<s[2]>>)
     [] cd.fam = "priv_get"     -> PMem(s[1])
     [] cd.fam = "priv_getthis" -> PMem(This)
     [] cd.fam = "priv_optget"  -> N("opmem", "", 0, <<s[1]>>)
@@ -1224,7 +1227,7 @@ Build(cd, s) ==
     [] cd.fam = "priv_inthis"  -> PIn(This)
     [] cd.fam = "priv_call"    -> PCall(This, <<s[1]>>)
     [] cd.fam = "priv_acc"     -> PAcc(This)
-    [] cd.fam = "rest"         -> N("rest", cd.op, 0, s)
+    [] cd.fam = "rest"         -> N("rest", cd.op, 0, [j \in DOMAIN s |-> IF j = 2 /\ cd.op = "r_asg" THEN ParIfChain(s[j]) ELSE s[j]])
     [] cd.fam = "using"        -> N("using", cd.op, 0, s)
     [] cd.fam = "async"        -> N("async", cd.op, 0, s)
     [] cd.fam = "class"        -> IF cd.shape.h THEN N("class", "h", 0, <<s[1]>> \o BuildElems(cd.shape.ks, s, 2))
@@ -1287,7 +1290,7 @@ SingleProgs(cds, idx) ==
 Nestable(cd) == cd.req = "" /\ cd.fam \notin {"class"}
 PairExpr(c1, j, c2) == Build(c1, [DefaultSlots(c1, 0) EXCEPT ![j] = Build(c2, DefaultSlots(c2, 10))])
 \* slots whose value is consumed in a way the rules cover for any operand
-NestSlots(cd) == {j \in DOMAIN cd.roles : cd.roles[j] \in {"r", "ro", "v", "n", "c", "g", "gs", "gt", "i", "b"}}
+NestSlots(cd) == {j \in DOMAIN cd.roles : cd.roles[j] \in {"r", "ro", "v", "n", "c", "g", "gs", "i", "b"}}
 PairPositions == <<"ret", "arrow", "aarrow", "gen", "field", "sfield", "sblock", "clskey", "dflt", "heritage", "arg">>
 \* (idx: this run's share of the outer constructs; only every stride-th combination, seeded by
 \* offset, is built)
@@ -1300,7 +1303,8 @@ PairProgs(outer, inner, idx, stride, offset) ==
          /\ outer[i2].req = ""
          \* an operand that awaits cannot stand inside the synchronous function / class body of a template
          /\ NeedsAsync(Build(inner[m2], DefaultSlots(inner[m2], 10))) =>
-              (outer[i2].fam \notin {"class", "rest"} /\ (outer[i2].fam = "using" => outer[i2].op \in {"u_await", "u_mixed"}))
+              \* (nor inside an async template: its rules take the operand as one synchronous step)
+              (outer[i2].fam \notin {"class", "rest", "async"} /\ (outer[i2].fam = "using" => outer[i2].op \in {"u_await", "u_mixed"}))
          /\ PosOK(outer[i2], PairExpr(outer[i2], j2, inner[m2]), pp[q2])}}
 \* the inner constructs of the nestings: one or two of every family
 InnerNames == {"oc_call", "oc_ocall", "oc_idx", "oc_paren", "oc_delete", "nul", "la_nn_mem_u", "la_or_idx", "pow", "powasg_mem",
